@@ -122,11 +122,12 @@ func wrapInt(t types.Type, term string) string {
 	if !ok {
 		return term
 	}
+	// the in-range case is spelled out (same value, but the solvers need not reason about mod to see it)
 	if !signed {
-		return "(mod " + term + " " + pow2(bits) + ")"
+		return "(let ((w!v " + term + ")) (ite (and (<= 0 w!v) (< w!v " + pow2(bits) + ")) w!v (mod w!v " + pow2(bits) + ")))"
 	}
 	h := pow2(bits - 1)
-	return "(- (mod (+ " + term + " " + h + ") " + pow2(bits) + ") " + h + ")"
+	return "(let ((w!v " + term + ")) (ite (and (<= (- " + h + ") w!v) (< w!v " + h + ")) w!v (- (mod (+ w!v " + h + ") " + pow2(bits) + ") " + h + ")))"
 }
 
 func rangeOf(t types.Type, term string) string {
@@ -1597,6 +1598,14 @@ func (fr *Frame) slice(x *ssa.Slice, st *State, reach string) {
 			na := fc.B.Fresh("subarr", "(Array Int "+es+")")
 			fc.B.Assert("(forall ((i Int)) (! (= (select " + na + " i) (select (s_arr " + base.T + ") (+ i " + lo + "))) :pattern ((select " + na + " i))))")
 			fr.define(x, "(mkS false (- "+hi+" "+lo+") "+na+")")
+			if fc.B.SplitRec && es == "String" && x.High == nil {
+				// joining the tail a[lo:] is the recursive join of a from lo (T-prelude: true of strings.Join by
+				// induction on the number of remaining elements)
+				fc.B.JoinFrom()
+				sub := fr.get(x).T
+				fc.B.Assert(implies(and("(<= 0 "+lo+")", "(<= "+lo+" (s_len "+base.T+"))"),
+					"(forall ((sep String)) (! (= (join_from "+sub+" sep 0) (join_from "+base.T+" sep "+lo+")) :pattern ((join_from "+sub+" sep 0))))"))
+			}
 		}
 	}
 }
@@ -1886,6 +1895,20 @@ func (fr *Frame) backEdges(b *ssa.BasicBlock, st *State) {
 			if ph.Comment != "" {
 				phis[ph.Comment] = fr.get(ph.Edges[idx])
 			}
+		}
+		{
+			// explicit lemma applications at this back edge: prev_<name> is the value at the loop head
+			env := fr.invEnv(s, phis, st)
+			for _, in := range s.Instrs {
+				ph, ok := in.(*ssa.Phi)
+				if !ok {
+					break
+				}
+				if ph.Comment != "" {
+					env.vars["prev_"+ph.Comment] = fr.get(ph)
+				}
+			}
+			fc.applyLemmas(env, ord, c)
 		}
 		for i, inv := range invs {
 			env := fr.invEnv(s, phis, st)
